@@ -3,8 +3,15 @@ import S2T.Model.Images
 import S2T.Gen.Images
 import S2T.Model.ImageParts
 import S2T.Gen.ImageParts
+import S2T.Model.ImageRels
+import S2T.Gen.ImageRels
 namespace S2T.Drv.C14
 open Lean S2T.Drv S2T.Images
+
+/-- the relationship-type guards of the current source (same expressions as `S2T.C14.Rels.sheetGuard` …) -/
+def sheetGuard : RelGuard := guardOf ("drawing", false) S2T.Gen.ImageRels.xlsx_sheet_guard
+def imageGuard : RelGuard := guardOf ("image", false) S2T.Gen.ImageRels.xlsx_image_guard
+def docxGuard : RelGuard := guardOf ("image", true) S2T.Gen.ImageRels.docx_image_guard
 
 /-- op `c14.resolve`: {"fn": which resolver, "a": directory / part name argument, "t": target} ↦ {"r": member name} -/
 def resolve (j : Json) : Except String Json := do
@@ -76,6 +83,16 @@ def pairOf (v : Json) : Except String (Json × Json) := do
   | [a, b] => pure (a, b)
   | _ => throw "expected a pair"
 
+def relOf (v : Json) : Except String Rel := do
+  match (← v.getArr?).toList with
+  | [i, t, g] => pure ⟨(← strOf i), (← strOf t), (← strOf g)⟩
+  | _ => throw "expected [id, type, target]"
+
+/-- op `c14.relkinds`: the inventory the theorems of Props/C14_Rels quantify over -/
+def relkinds (_ : Json) : Except String Json := do
+  let l (x : List (List Char)) := Json.arr (x.map jStr).toArray
+  return Json.mkObj [("ns", l relNamespaces), ("sheet", l sheetRelKinds), ("drawing", l drawingRelKinds), ("document", l documentRelKinds)]
+
 /-- op `c14.extract`: the image loop of one format on an abstract document; see harness/props/c14.py `model_request` -/
 def extract (j : Json) : Except String Json := do
   let fmt ← getStr j "fmt"
@@ -117,14 +134,42 @@ def extract (j : Json) : Except String Json := do
         let rels : SheetRels := fun nm => (relsL.find? (fun r => r.1 == nm)).map (·.2)
         let dr : Drawings := fun d => ((drawL.find? (fun r => r.1 == d)).map (·.2)).getD []
         pure [("units_pkg", jUnits (xlsxExtractPkg pkg rels dr n))])
-    return Json.mkObj ([("units", jUnits (xlsxExtract pkg sheets))] ++ fromPkg)
+    -- from the relationships parts as they are: "sheet_parts" = [[member name, [[id, type, target]]]],
+    -- "drawing_parts" = [[drawing part name, [[anchor kind, r:embed id | null]], [[id, type, target]]]];
+    -- the model selects the relationships by the guards of the source
+    let fromRels ← (do
+      match j.getObjVal? "sheet_parts" with
+      | .error _ => pure []
+      | .ok sv =>
+        let n ← getNat j "n"
+        let partsL ← (← arrOf sv).mapM (fun r => do let (a, b) ← pairOf r; return ((← strOf a), (← (← arrOf b).mapM relOf)))
+        let drawL ← (← arrOf (← j.getObjVal? "drawing_parts")).mapM (fun d => do
+          match (← d.getArr?).toList with
+          | [p, as, rs] =>
+            let rels ← (← arrOf rs).mapM relOf
+            let as ← (← arrOf as).mapM (fun a => do
+              let (k, t) ← pairOf a
+              return ((← k.getNat?), (← optStrOf t).bind (ridLookup imageGuard rels)))
+            pure ((← strOf p), as)
+          | _ => throw "expected [part, anchors, rels]")
+        let rels : SheetRels := fun nm => (partsL.find? (fun r => r.1 == nm)).map (fun r => pickFirstTarget sheetGuard r.2)
+        let dr : Drawings := fun d => ((drawL.find? (fun r => r.1 == d)).map (·.2)).getD []
+        pure [("units_rels", jUnits (xlsxExtractPkg pkg rels dr n))])
+    return Json.mkObj ([("units", jUnits (xlsxExtract pkg sheets))] ++ fromPkg ++ fromRels)
   | "docx" | "docx_old" =>
     let rels ← unitsJ.mapM (fun a => do
       match (← a.getArr?).toList with
       | [i, b, t] => pure ((← strOf i), (← b.getBool?), (← strOf t))
       | _ => throw "expected [id, isImage, target]")
     let body ← (← getArr j "body").toList.mapM strOf
-    return Json.mkObj [("units", jUnits [if fmt = "docx" then docxExtract pkg rels body else docxExtractOld pkg rels])]
+    -- "rel_parts" = [[id, type, target]] of word/_rels/document.xml.rels: image relationships selected by the source's guard
+    let fromRels ← (do
+      match j.getObjVal? "rel_parts" with
+      | .error _ => pure []
+      | .ok rv =>
+        let rl ← (← arrOf rv).mapM relOf
+        pure [("units_rels", jUnits [docxExtract pkg (rl.map fun r => (r.id, docxGuard.holds r.type, r.target)) body])])
+    return Json.mkObj ([("units", jUnits [if fmt = "docx" then docxExtract pkg rels body else docxExtractOld pkg rels])] ++ fromRels)
   | "epub" =>
     let dir := chars (← getStr j "opf_dir")
     let items ← unitsJ.mapM (fun a => do let (b, t) ← pairOf a; return ((← b.getBool?), (← strOf t)))
@@ -156,6 +201,7 @@ def handle (op : String) (j : Json) : Option (Except String Json) :=
   | "c14.sniff" => some (sniff j)
   | "c14.extract" => some (extract j)
   | "c14.pdffilter" => some (pdffilter j)
+  | "c14.relkinds" => some (relkinds j)
   | _ => none
 
 end S2T.Drv.C14
